@@ -1746,6 +1746,7 @@ def from_mps(mps: Mps) -> Tuple[BasisTree, TTNS, TTNO]:
         if i == 0:
             # remove the empty children index
             node.tensor = node.tensor[0, ...]
+    ttns.coeff = mps.coeff
     ttns.check_shape()
     ttns.check_canonical()
     ttno = TTNO(basis, mps.model.ham_terms)
